@@ -53,6 +53,16 @@ func Boundary() Spec {
 		fix(Msg("CreateProject(A,C01,max-lengths)", &basetypes.MsgCreateProject{Admin: A.String(), ClassId: "C01", Metadata: long, Jurisdiction: "US-WA 98225", ReferenceId: ref32})),
 		fix(Msg("CreateClass(A,max-metadata)", &basetypes.MsgCreateClass{Admin: A.String(), Issuers: []string{A.String(), B.String()}, Metadata: long, CreditTypeAbbrev: "C", Fee: pcoin("uregen", 20)})),
 		lastBatch("Put(B,NCT,last-batch,1)", func(d string) *explore.Action { return Put(B, NCT, BC(d, "1")) }),
+		E{Name: "Put(B,NCT,last-batch,ALL)", Make: func(pre *chain.Snapshot) *explore.Action {
+			d := kb(pre, -1)
+			if d == "" || tradable(pre, B, d).Sign() == 0 {
+				return nil
+			}
+			a := Put(B, NCT, BC(d, fmtRat(tradable(pre, B, d)))) // the sole holder deposits everything: all balance rows of the batch become zero
+			a.Label = "Put(B,NCT,last-batch,ALL)[" + d + "]"
+			return a
+		}},
+		lastBatch("Cancel(B,last-batch,ALL-but-basket)", func(d string) *explore.Action { return Cancel(B, d, "3") }),
 		lastBatch("Sell(B,last-batch,sci-notation,no-expiry)", func(d string) *explore.Action { return Sell(B, d, "1.5e0", coin("uregen", 1), true, nil) }),
 		lastBatch("Sell(B,last-batch,expiry)", func(d string) *explore.Action { return Sell(B, d, Eps, coin(IBC, 9), false, &e10) }),
 		lastBatch("Retire(B,last-batch,0.5)", func(d string) *explore.Action { return Retire(B, d, "0.5") }),
@@ -62,6 +72,9 @@ func Boundary() Spec {
 		fix(Msg("DefineResolver(B,public)", &data.MsgDefineResolver{Definer: B.String(), ResolverUrl: "https://pub.example", Public: true})),
 		fix(Msg("DefineResolver(C,private)", &data.MsgDefineResolver{Definer: C.String(), ResolverUrl: "https://priv.example", Public: false})),
 		fix(Msg("Anchor(B,R1)", &data.MsgAnchor{Sender: B.String(), ContentHash: RawHash(1)})),
+		fix(Msg("Anchor(B,raw,digest-algorithm=2)", &data.MsgAnchor{Sender: B.String(), ContentHash: &data.ContentHash{Raw: &data.ContentHash_Raw{Hash: make([]byte, 32), DigestAlgorithm: 2, FileExtension: "bin"}}})),
+		fix(Msg("Anchor(B,raw,64-byte-hash,digest-algorithm=255)", &data.MsgAnchor{Sender: B.String(), ContentHash: &data.ContentHash{Raw: &data.ContentHash_Raw{Hash: make([]byte, 64), DigestAlgorithm: 255, FileExtension: "a1"}}})),
+		fix(Msg("Anchor(C,graph,20-byte-hash,c14n=255,merkle=255)", &data.MsgAnchor{Sender: C.String(), ContentHash: &data.ContentHash{Graph: &data.ContentHash_Graph{Hash: make([]byte, 20), DigestAlgorithm: 7, CanonicalizationAlgorithm: 255, MerkleTree: 255}}})),
 		fix(Msg("Attest(C,G1)", &data.MsgAttest{Attestor: C.String(), ContentHashes: []*data.ContentHash_Graph{GraphHash(1)}})),
 		fix(Msg("RegisterResolver(B,#1,R2)", &data.MsgRegisterResolver{Signer: B.String(), ResolverId: 1, ContentHashes: []*data.ContentHash{RawHash(2)}})),
 		fix(Msg("UpdateClassFee(0uregen)", &basetypes.MsgUpdateClassFee{Authority: g, Fee: pcoin("uregen", 0)})),
